@@ -25,7 +25,7 @@ ASSUMPTIONS = ['the byte stream is modelled in memory (fragment boundaries are e
                'deadlines are virtual seconds: connect_timeout + 2 x peer_timeout for the client, idle_timeout + transfer_timeout for the server',
                'an exception raised inside data_received closes the connection (asyncio semantics) and is not itself a violation',
                'a header followed by the complete correct bytes plus excess bytes IS a complete correct copy (the client caps at the announced length)']
-REQUIRED_HITS = ['X5.pair_checked', 'X2.orphan_file_blob', 'X5.race_checked', 'X1.checked', 'X2.honest_transfer', 'X2.sequential_on_one_connection', 'X2.header_alone', 'X2.one_byte_fragments',
+REQUIRED_HITS = ['X5.pair_checked', 'X2.orphan_file_blob', 'X5.race_checked', 'X1.checked', 'X2.honest_transfer', 'X2.blanks_content', 'X2.sequential_on_one_connection', 'X2.header_alone', 'X2.one_byte_fragments',
                  'X2.header_glued', 'X2.big_blob', 'X2.sd_blob', 'X3.client_liar_checked', 'X3.server_hostile_client_checked', 'X4.wire_checked',
                  'X4.not_held_request', 'X5.concurrent_honest_ok', 'X6.liar_then_honest', 'liar.wrong_hash', 'liar.wrong_length_unknown',
                  'liar.wrong_length_known', 'liar.flip', 'liar.short_stall', 'liar.short_close', 'liar.excess', 'liar.malformed_json',
@@ -120,6 +120,16 @@ def blob_content(r, cls):
         return head + r.randbytes(r.randrange(0, 3000))
     if cls == 'braces':
         return b'}' * r.randrange(1, 2000) + r.randbytes(100)
+    if cls == 'blanks':
+        # text-like blobs: runs of blanks, tabs and line ends, also at the very start and end, so that wherever the stream is cut the
+        # fragment is likely to begin or end with white space (seeded break C10-F stripped the segment that carried the header)
+        ws = b' \t\n\r\x0b\x0c'
+        n = r.choice([1, 2, 17, 300, 5000, 70000])
+        body = bytearray(r.choice(ws) if r.random() < 0.6 else r.randrange(256) for _ in range(n))
+        body[-1] = r.choice(ws)
+        if r.random() < 0.5:
+            body[0] = r.choice(ws)
+        return bytes(body)
     raise ValueError(cls)
 
 
@@ -210,7 +220,7 @@ async def _honest(rec, case, loop):
             orphan[sha384(oc)] = oc
         sbm, sst, sdir = await make_manager(loop, base, 'server', preload=orphan)
         cbm, cst, cdir = await make_manager(loop, base, 'client')
-        classes = ['tiny', 'small', 'mid', 'sd', 'jsonlike', 'braces', 'small'] + (['big'] if case['big'] else [])
+        classes = ['tiny', 'small', 'mid', 'sd', 'jsonlike', 'braces', 'small', 'blanks', 'blanks'] + (['big'] if case['big'] else [])
         nblobs = r.randrange(1, 5)
         held = dict(orphan)
         order = [(hh, 'orphan-file') for hh in orphan]
@@ -219,6 +229,8 @@ async def _honest(rec, case, loop):
         for _ in range(nblobs):
             cls = r.choice(classes)
             c = blob_content(r, cls)
+            if sha384(c) in held:       # two identical tiny blobs (one blank, say): one is enough
+                continue
             h = await add_blob(sbm, c)
             held[h] = c
             order.append((h, cls))
@@ -288,6 +300,8 @@ async def _honest(rec, case, loop):
                     return
                 continue
             rec.hit('X2.honest_transfer')
+            if cls == 'blanks':
+                rec.hit('X2.blanks_content')
             if nreq > 1:
                 rec.hit('X2.sequential_on_one_connection')
             if styles_s2c == 'first:HEADER':
